@@ -129,7 +129,7 @@ def matrix(tier, jobs=3):
     import glob
     from concurrent.futures import ThreadPoolExecutor
 
-    dirs = sorted(glob.glob(os.path.join(VERIF, "seeded", "*")))
+    dirs = sorted(glob.glob(os.path.join(VERIF, "seeded", "C*")))
 
     def one(d):
         meta = json.load(open(os.path.join(d, "meta.json")))
